@@ -130,7 +130,7 @@ def xcube_dense(rng, dims, dense, cls):
         hi = int(a.max()) if a.size else 0
         dts = [dt for dt in gen.storage_dtypes(0, hi) if dt.kind == ("i" if cls == "signed" else "u")]
         dt = gen.pick(rng, dts) if cls != "int64" else numpy.dtype("int64")
-        out.append(a.astype(dt))
+        out.append(gen.layout_variant(rng, a.astype(dt))[0])
     return out
 
 
